@@ -468,6 +468,8 @@ def run_case(prop, name, params, budget=None):
                 if o.ok:
                     verdict = "discharged"
                     res["nontrivial"] += 1
+                    if len(res["samples"]) < 3:
+                        res["samples"].append(dict(label=o.label, path_condition=_short(z3.And(*pr.pc)) if pr.pc else "true", detail=o.detail[:160], verdict="holds on this path"))
                 else:
                     verdict = "sat"
             elif o.kind == "exc":
